@@ -137,6 +137,12 @@ def part3(chk, tier, rnd):
     for v in (7, 2147483647, 2147483648, 3000000000, 4294967296, 1 << 40, (1 << 63) - 1, (1 << 64) - 1):
         cases.append((None, 64, 0, v, str(v), 'untyped-reassign'))
         cases.append((None, 64, 0, v, str(v), 'untyped-reassign-twice'))
+    # literals at a `distinct` integer type (and a distinct of a distinct): the range rule of the underlying type applies
+    for t, w, sg in (('u8', 8, 0), ('i16', 16, 1), ('u32', 32, 0), ('i64', 64, 1), ('i8', 8, 1)):
+        mx = (1 << (w - sg)) - 1
+        for v in (mx - 1, mx, mx + 1, mx + 45):
+            cases.append((t, w, sg, v, str(v), 'annotated-distinct'))
+            cases.append((t, w, sg, v, str(v), 'annotated-distinct-distinct'))
     # integer literals used at a float type, as global and as local (small values are exact in both float types)
     for v in (0, 1, 5, 255, 65536, 16777216):
         for ft in ('f32', 'f64'):
@@ -159,6 +165,10 @@ def part3(chk, tier, rnd):
             # the written value is > 1, so `x > 1` must hold; observed value: 7 when it holds, 0 otherwise
             src = 'lit :: (r: ^mut u64) { x := %s; r^ = 0; if x > 1 { r^ = 7; } }\nmain :: () { p := lit; }\n' % sp
             fits = True; w = 64; v = 7
+        elif how in ('annotated-distinct', 'annotated-distinct-distinct'):
+            decl = 'D1 :: distinct %s;\n' % t + ('D :: distinct D1;\n' if how.endswith('distinct-distinct') else 'D :: distinct D1;\n'.replace('distinct D1', 'distinct %s' % t))
+            src = decl + 'lit :: (r: ^mut %s) { x : D = %s; r^ = %s.(x); }\nmain :: () { p := lit; }\n' % (t, sp, t)
+            fits = v <= (1 << (w - sg)) - 1
         elif how == 'float-global':
             src = 'G : %s : %s;\nlit :: (r: ^mut u64) { r^ = u64.(G); }\nmain :: () { p := lit; }\n' % (t, sp)
             fits = True; w = 64
@@ -181,9 +191,9 @@ def part3(chk, tier, rnd):
         mod, out = clifcheck.compile_module('C09', 'lit', src)
         accepted = mod is not None
         crashed = 'panicked at' in out
-        rec = {'type': t, 'spelling': sp, 'use': how, 'value': v, 'should_be_accepted': fits if how == 'annotated' else None, 'accepted': accepted}
+        rec = {'type': t, 'spelling': sp, 'use': how, 'value': v, 'should_be_accepted': fits if how.startswith('annotated') else None, 'accepted': accepted}
         # without an annotation the type comes from the defaulting rules: only "accepted => keeps its value" is required
-        ok = ((accepted == fits) if how == 'annotated' else True) and not crashed
+        ok = ((accepted == fits) if how.startswith('annotated') else True) and not crashed
         got = None
         if accepted:
             eng = ClifEngine(mod, max_visits=4)
